@@ -435,3 +435,93 @@ def patterns():
         ('historically', (0, 2), ('or', px, ('once', (1, 2), ('and', px, py)))),
         ('always', (1, 2), ('or', ('eventually', (0, 1), px), ('always', (0, 1), py))),
     ]
+
+
+I_BIG = ((0, 4), (2, 5), (4, 4), (3, 7))
+
+
+def deep_formulas(ops_u, ops_b=(), future=True, two_var=True):
+    """larger bounds and deeper nesting than F(2): chains of 3 temporal operators and since/until with bounds up to 7
+    (meant for long traces over a two-letter alphabet)"""
+    px, py = PX, PY
+    T = [(op, I) for op in ('once', 'historically', 'eventually', 'always') if op in ops_u and (future or op in ('once', 'historically')) for I in I_BIG]
+    out = []
+    for u in T:
+        out.append(ap1(u, px))
+        out.append(ap1(u, X))
+    for i, u in enumerate(T):
+        for j, v in enumerate(T):
+            if (i + 2 * j) % 3 == 0:
+                out.append(ap1(u, ap1(v, px)))
+    for i, u in enumerate(T):
+        v = T[(i * 5 + 3) % len(T)]
+        w = T[(i * 7 + 1) % len(T)]
+        out.append(ap1(u, ap1(v, ap1(w, X))))
+        for p1 in ('prev', 'next', 'rise', 'not'):
+            if p1 in ops_u:
+                out.append(ap1(u, ap1((p1,), ap1(v, px))))
+    if two_var:
+        for I in I_BIG:
+            if 'since' in ops_b:
+                out += [('since', I, px, py), ('since', I, ('once', (0, 4), px), py)]
+            if 'until' in ops_b and future:
+                out += [('until', I, px, py), ('always', (0, 4), ('until', I, px, py))]
+            if 'unless' in ops_b and future:
+                out += [('unless', I, px, py)]
+    seen, res = set(), []
+    for f in out:
+        if f not in seen:
+            seen.add(f)
+            res.append(f)
+    return res
+
+
+I_WIDE = ((0, 15), (0, 16), (3, 19), (2, 20), (16, 16))
+
+
+def wide_formulas(ops_u, ops_b=(), future=True):
+    """windows of 16+ samples (implementations may switch algorithm with the window size)"""
+    px, py = PX, PY
+    out = []
+    for op in ('once', 'historically', 'eventually', 'always'):
+        if op in ops_u and (future or op in ('once', 'historically')):
+            for I in I_WIDE:
+                out += [(op, I, X), (op, I, px)]
+    for I in I_WIDE[:3]:
+        if 'since' in ops_b:
+            out.append(('since', I, px, py))
+        if future and 'until' in ops_b:
+            out.append(('until', I, px, py))
+    return out
+
+
+def long_traces(nvars, length, values=V3):
+    """a fixed finite family of LONG traces: all periodic traces with a period word of length <= 3 (one variable) or <= 2
+    (two variables), all single-spike traces (constant a with one sample b, every position) and all step traces (a up to position k,
+    then b).  Enumerated completely; meant for behaviour that depends on the number of samples seen."""
+    vecs = list(itertools.product(values, repeat=nvars))
+    seen, out = set(), []
+
+    def add(t):
+        t = tuple(t)
+        if t not in seen:
+            seen.add(t)
+            out.append(t)
+    for plen in range(1, (3 if nvars == 1 else 2) + 1):
+        for u in itertools.product(vecs, repeat=plen):
+            add([u[i % plen] for i in range(length)])
+    # a short transient followed by a constant tail, and a constant followed by a short final word
+    if nvars == 1:
+        for wl in (2, 3):
+            for u in itertools.product(vecs, repeat=wl):
+                for c in vecs:
+                    add(list(u) + [c] * (length - wl))
+                    add([c] * (length - wl) + list(u))
+    pairs = [(a, b) for a in vecs for b in vecs if a != b]
+    if nvars > 1:
+        pairs = pairs[::5]
+    for a, b in pairs:
+        for k in range(length):
+            add([b if i == k else a for i in range(length)])
+            add([a if i < k else b for i in range(length)])
+    return out
